@@ -5,14 +5,14 @@ import "verif/mc/runner"
 func init() {
 	add(&runner.Spec{
 		Prop: "C02",
-		Rule: "every destination type of the decoding grammar (27 leaves incl. Unmarshaler/TextUnmarshaler implementers; depth 2; as C01's constructors) x every type-directed document with at most D deviations (D=2 quick, 3 thorough) from the well-typed default: other domain values incl. every integer boundary +-1 and float overflow, null, wrong JSON kind, missing/duplicate/unknown/differently-cased member, short/long array, whitespace; x {zero, pre-populated} destination x {Unmarshal, Decoder, Decoder+UseNumber, Decoder+DisallowUnknownFields}. Only RFC- and UTF-8-valid texts are judged. Error <=> error and canonical destination equality with encoding/json.",
+		Rule: "every destination type of the decoding grammar (27 leaves incl. Unmarshaler/TextUnmarshaler implementers; depth 2; as C01's constructors) x every type-directed document with at most D deviations (D=2 quick, 3 thorough) from the well-typed default: other domain values incl. every integer boundary +-1 and float overflow, null, wrong JSON kind, missing/duplicate/unknown/differently-cased member, short/long array, whitespace; x {zero, pre-populated} destination x {Unmarshal, Decoder, Decoder+UseNumber, Decoder+DisallowUnknownFields}. Only RFC- and UTF-8-valid texts are judged. Error <=> error and canonical destination equality with encoding/json. Floating-point literals: every valid number literal of at most 6 (thorough 7) characters over {-,0,1,9,.,e,E,+}, the shortest, exponent-form and exact decimal expansions of ~190 boundary values (powers of two and ten, subnormal and overflow limits, 2^53, halfway cases) and of their +-2 (thorough +-12) ulp neighbours, and 21 long mantissas x 38 exponents, into 14 destinations (float64/float32 in every container position, ,string, interface{}, UseNumber, Number) through Unmarshal and Decoder: the decoded bits must be encoding/json's. Base64 payloads: every string of at most 4 (thorough 5) atoms over {A,Q,Zg,=,-,_,+,/,\\n,\\r,space,\\u0041,\\/,é} into five []byte positions through Unmarshal and Decoder.",
 		StatesAre: "distinct (entry point, difference kind) outcomes",
 		Assume: append([]string{
 			"encoding/json with the same options on an identically pre-populated destination is the reference",
 			"canonical form distinguishes nil/empty, follows pointers, validates headers",
 		}, commonAssume...),
 		Jobs: func(tier string) []runner.Job {
-			return []runner.Job{{Harness: "c02.types", Mode: "plain", Shards: 16}}
+			return []runner.Job{{Harness: "c02.types", Mode: "plain", Shards: 16}, {Harness: "c02.floats", Mode: "plain", Shards: 16}, {Harness: "c02.bytes", Mode: "plain", Shards: 16}}
 		},
 	})
 }
